@@ -105,7 +105,7 @@ PROPS = {
     ),
     'C02': dict(
         level='proof',
-        verus_units=['broker_serial_map', 'broker_object', 'broker_state', 'broker_handlers_calls'],
+        verus_units=['broker_serial_map', 'broker_object', 'broker_state', 'broker_handlers_routing', 'broker_handlers_registry'],
         trusted_base=TB_VERUS + TB_CONN + [
             'contracts of SerialMap / Object / Service / ConnectionState methods are imported verbatim from the units '
             'that verify them (//@fn-from); ConnectionState::call_data is assumed (tuple-pattern closure)',
@@ -149,7 +149,7 @@ PROPS = {
     ),
     'C12': dict(
         level='proof',
-        verus_units=['broker_handlers_calls'],
+        verus_units=['broker_handlers_routing', 'broker_handlers_subs', 'broker_handlers_registry'],
         kani=[dict(package='aldrin-broker', injections=[KANI_BROKER_ACC], jobs=2),
               dict(package='aldrin-core', injections=[KANI_CORE_CONV], jobs=4)],
         trusted_base=TB_KANI + TB_VERUS + ['derived PartialOrd of ProtocolVersion = lexicographic order (assumed in the Verus '
